@@ -231,7 +231,8 @@ def lazy_rule(ctx, P):
         outside = [i for i in refs if not in_init(i)]
         carried = False
         if outside:
-            first = min(outside, key=lambda i: (f.nodes[i].get("l") or 0, i))
+            order = {n_: k_ for k_, n_ in enumerate(f.walk())}     # syntactic order, bodies of new helpers at their calls
+            first = min(outside, key=lambda i: order.get(i, 1 << 30))
             st = [s for s in paths.stores(f) if s["op"] == "=" and s["rhs"] is not None and first in set(f.walk(s["lhs"]))]
             carried = not st or any(f.k(j) == "Member" and f.canon(j, subst=False) == path for j in f.walk(st[0]["rhs"]))
         if carried or init_store:
